@@ -111,6 +111,10 @@ package inmem
 //@     (forall p int64 :: isBookmarkOf(options.StartFromBookmark, p) && 0 <= p && p < collection.writePos && collection.writePos - (collection.cap0 - collection.gap) <= p ==> err == nil)
 //@   ensures [tail-start] err == nil && options.TailEvents > 0 ==> 0 <= pos && pos <= collection.writePos && collection.writePos - pos <= collection.capacity - collection.gap
 //@   ensures [live-start] err == nil && options.TailEvents <= 0 && options.StartFromBookmark == nil ==> pos == collection.writePos
+// the backward scan for the last N events of this resource stops exactly on one of its events (unless
+// it ran out of retained history): the tail does not start on another resource's event
+//@   ensures [tail-starts-on-an-event-of-the-resource] err == nil && options.TailEvents > 0 && pos > 0 && pos > collection.writePos - collection.capacity + collection.gap ==>
+//@     pos < collection.writePos && mdOf(collection.log[pos].Resource).id == id
 //@   loop #2
 //@     invariant [tail-scan] held(collection.mu)
 //@   at Metadata #1
@@ -118,6 +122,8 @@ package inmem
 //@     assert [tail-log-inst; using logwf] collection.log[pos-1].Resource != nil
 //@   loop #2
 //@     invariant [tail-pos] minPos <= pos && pos <= collection.writePos && 0 <= minPos && collection.writePos - collection.capacity + collection.gap <= minPos
+//@     invariant [tail-min] minPos == collection.writePos - collection.capacity + collection.gap || (minPos == 0 && collection.writePos - collection.capacity + collection.gap <= 0)
+//@     invariant [tail-stops-on-a-match] foundEvents <= options.TailEvents && (foundEvents == options.TailEvents ==> pos < collection.writePos && mdOf(collection.log[pos].Resource).id == id)
 
 // Delivery goroutine of Watch. Per outer iteration: the event sent is log[pos-1], it carries the
 // watched ID, and no event of that ID between the position at lock time and pos-1 was skipped;
